@@ -14,6 +14,11 @@ Extended dimensions (x86gen.Gen.ext): implicit operands omitted, ModMR/ModRM on 
 non-branches, branch hints / size optimisation through EncodingOptions, the address-size x index-type matrix (incl. vector
 indexes), disp8*N boundaries under every addressing style. Each has measured counters; a dimension that judged nothing makes
 the run inconclusive.
+Round 12: absolute (base-less, index-less) memory operands x address type {abs, rel, default} x CodeHolder base address {none, 0,
+low, > 4 GiB, high} x requested address {32-bit, near the code, at the edge of the rel32 reach, out of reach}, each case assembled
+alone in a holder with that base behind a known padding: the oracle computes the address the decoded operand designates
+(base + offset + instruction length incl. trailing immediate + disp32, or the extended absolute disp32 / moffs) and compares it
+with the requested one; an accepted out-of-reach target shows as a wrong address. Relocated operands (no base address) are C04's.
 """
 import collections
 import json
@@ -81,6 +86,9 @@ def gap_class(c, byname, mode, round11=False):
     return None
 
 
+ABSREL = re.compile(r"^mem-absrel-(abs|rel|default)-(none|zero|low|high|top)-")
+
+
 DIMS = ("implicit_omitted", "modmr_modrm_non_legacy", "long_form_non_branch", "accumulator_short_form", "branch_hints",
         "optimize_for_size", "address_size_matrix", "address_size_matrix_vector_index", "disp8xN_other_styles")
 
@@ -134,6 +142,20 @@ def judge_mode(cases, results, forms, byname, mode, stats, viol, samples, round1
     def gap_class(c, byname, mode):
         return _GAP_CLASS(c, byname, mode, round11)
 
+    for c, r in zip(cases, results):
+        if "cbase" in c:
+            # absolute-operand dimension: the driver says where in the section the instruction was assembled
+            if r.get("off") is None or r["off"] != c.get("pad", 0):
+                raise common.HarnessError("driver assembled a base-address case at offset %s, generator expected %s: %s" % (r.get("off"), c.get("pad"), G.case_line(c)))
+            c["off"] = r["off"]
+            m = ABSREL.match(c["variant"])
+            if m:
+                cell = "%s_%s_%s" % (m.group(1), "base_" + m.group(2), "trailing_imm" if c.get("trail") else "no_imm")
+                stats["absrel_gen_" + cell] += 1
+                if r["err"] != 0:
+                    stats["absrel_refused_" + cell] += 1
+                elif r["dr"]:
+                    stats["absrel_relocated_" + cell] += 1
     sel = [(c, r) for c, r in zip(cases, results) if r["err"] == 0 and r["bytes"]]
     if not sel:
         return
@@ -197,7 +219,9 @@ def judge_mode(cases, results, forms, byname, mode, stats, viol, samples, round1
             viol.append(("length:llvm:%s" % c["name"], "llvm-objdump does not end an instruction at the %d bytes AsmJit appended (%s): `%s`; case: %s" % (len(raw), raw.hex(), tl, line), line))
         if obj_knows or llvm_knows:
             form_decodable[c["form"]] += 1
-        elif v != "ok" and not reported_unenc:
+        elif v != "ok" and not reported_unenc and not ("cbase" in c and r["dr"]):
+            # (a relocated absolute operand has no database-rule verdict by design - C04 judges relocations - so a decoder
+            # that refuses the bytes for another reason, e.g. vfcmaddcph with destination == source, proves nothing here)
             pending_undec.append((c, raw, line, v, d))
         if v == "mismatch" and dec == "agree" and c["opts"] & (G.OPT_MODMR | G.OPT_MODRM):
             # the direction options select the sibling opcode, whose database record may list the memory operand only
@@ -210,6 +234,12 @@ def judge_mode(cases, results, forms, byname, mode, stats, viol, samples, round1
             if gap:
                 key = gap
             viol.append((key, "bytes %s violate the database encoding rule for %s: %s; decoders: %s (`%s`); case: %s" % (raw.hex(), c["name"], d, dec, t1, line), line))
+        m = ABSREL.match(c["variant"])
+        if m and not r["dr"]:
+            cell = "%s_%s_%s" % (m.group(1), "base_" + m.group(2), "trailing_imm" if c.get("trail") else "no_imm")
+            if v == "ok":
+                enc = c.get("_absenc", "moffs")
+                stats["absrel_judged_%s_%s" % (enc, cell)] += 1
         for dim in dims_of(c, forms[c["form"]]):
             stats["dim_acc_" + dim] += 1
             if v == "ok" or dec == "agree":
@@ -367,7 +397,17 @@ def run(tier, args):
     dims = {d: {"generated": stats["dim_gen_" + d], "accepted": stats["dim_acc_" + d], "judged": stats["dim_judged_" + d]} for d in DIMS}
     unenc = {"generated": stats["unenc_generated"], "refused": stats["unenc_refused"],
              "accepted_as_another_form_and_judged": stats["unenc_in_another_form"], "accepted_unencodable": stats["unenc_accepted"]}
+    absrel = {k[7:]: v for k, v in sorted(stats.items()) if k.startswith("absrel_")}
     if not args.replay and args.scale >= 0.5:
+        # (a default-typed operand is turned into [rip+disp32] only when its address is no 32-bit value: never reachable from a low base)
+        need = ["judged_riprel_%s_base_%s_%s" % (a, b, t) for a in ("rel", "default") for b in ("zero", "low", "high", "top") for t in ("trailing_imm", "no_imm")
+                if not (a == "default" and b in ("zero", "low"))] + \
+               ["judged_abs_%s_base_%s_%s" % (a, b, t) for a in ("abs", "default") for b in ("none", "zero", "high") for t in ("trailing_imm", "no_imm")]
+        deadabs = [k for k in need if not absrel.get(k)]
+        if deadabs:
+            raise common.HarnessError("absolute-operand dimension: no case judged for %s" % ", ".join(deadabs[:6]))
+        if not any(k.startswith("refused_rel_") for k in absrel):
+            raise common.HarnessError("absolute-operand dimension: no out-of-reach rel operand was refused")
         dead = [d for d in DIMS if not dims[d]["judged"]]
         if dead:
             raise common.HarnessError("extended dimension(s) judged nothing: %s" % ", ".join(dead))
@@ -387,6 +427,7 @@ def run(tier, args):
         "judged_by_at_least_one_oracle": stats["judged"],
         "extended_dimensions": dims,
         "out_of_form_probes": unenc,
+        "absolute_operand_x_address_type_x_code_base": absrel,
         "optimize_for_size_rewrites_judged_as_the_r32_instruction": stats["optsize_rewrites_judged"],
     })
     chk.assumptions += [
